@@ -352,6 +352,7 @@ class Ctx:
         self.obligations = 0
         self.smt_obligations = 0
         self.violations = []
+        self.local_branches = 0
 
     # --- symbolic inputs
     def sym_bv(self, name, width):
@@ -456,6 +457,35 @@ class Ctx:
 
     def cover(self, name):
         self.covers.add(name)
+
+    def forall(self, thunk, limit=10000):
+        """Explore every branch of a PURE sub-computation (no writes to state that outlives it) under the current
+        path condition, without forking the enclosing path: local decisions use solver push/pop.  Laws checked inside
+        see the local constraints.  Returns the list of thunk results (one per local branch)."""
+        saved = (self.prefix, self.pos, self.trace, self.pending, len(self.pc))
+        results = []
+        work = [[]]
+        n = 0
+        try:
+            while work:
+                pre = work.pop()
+                n += 1
+                if n > limit:
+                    raise BoundExceeded('forall: more than %d local branches' % limit)
+                self.solver.push()
+                self.prefix, self.pos, self.trace, self.pending = pre, 0, [], []
+                try:
+                    results.append(thunk())
+                except Infeasible:
+                    pass
+                finally:
+                    work.extend(self.pending)
+                    self.solver.pop()
+                    del self.pc[saved[4]:]
+                self.local_branches += 1
+        finally:
+            self.prefix, self.pos, self.trace, self.pending = saved[0], saved[1], saved[2], saved[3]
+        return results
 
     def law(self, name, formula, info=None):
         """Proof obligation on this path: pc => formula.  Records a violation (with model) if pc & ~formula is sat."""
